@@ -129,7 +129,7 @@ def run(ck):
     ok = len(names) == 2 and any(isinstance(n, ast.AugAssign) and norm(n.target) == "todo" and norm(n.value) == names[1] for n in walk_local(body)) or \
         (len(names) == 2 and any(isinstance(c, ast.Call) and dotted(c.func) == "todo.extend" and norm(c.args[0]) == names[1] for c in walk_local(body)))
     ck.ob("R3", "dis_multiblock:queue-successors", ok, m.where(fn), "the offsets returned by _dis_block are not queued")
-    ok = any(isinstance(n, ast.If) and "self.blocs_wd" in norm(n.test) and ">" in norm(n.test) and any(isinstance(s, ast.Break) for s in n.body)
+    ok = any(isinstance(n, ast.If) and "self.blocs_wd" in norm(n.test) and any(isinstance(x, ast.Compare) and isinstance(x.ops[0], (ast.Lt, ast.LtE, ast.Gt, ast.GtE)) for x in ast.walk(n.test)) and any(isinstance(s, ast.Break) for s in n.body)
              for n in walk_local(body))
     ck.ob("R3", "dis_multiblock:block-limit", ok, m.where(fn), "the block-count limit does not stop the work list")
     tail = [s for s in fn.body if not isinstance(s, ast.Return)]
@@ -182,13 +182,28 @@ def run(ck):
 
     # ---------------------------------------------------------------- R4
     fn = m.func("AsmBlock.split")
-    part = [n for n in walk_body(fn) if isinstance(n, ast.Assign) and isinstance(n.targets[0], ast.Tuple) and
-            [norm(e) for e in n.targets[0].elts] == ["self.lines", "new_block.lines"]]
-    ok = bool(part) and isinstance(part[0].value, ast.Tuple) and [norm(e) for e in part[0].value.elts] == ["self.lines[:i]", "self.lines[i:]"]
-    ck.ob("R4", "AsmBlock.split:partition", ok, m.where(fn), "lines are not partitioned as lines[:i] / lines[i:]")
-    ok = any(isinstance(n, ast.Assign) and norm(n.targets[0]) == "i" and norm(n.value) == "offsets.index(offset)" for n in walk_body(fn)) and \
-        any(isinstance(n, ast.Assign) and norm(n.targets[0]) == "offsets" and norm(n.value) == "[x.offset for x in self.lines]" for n in walk_body(fn))
-    ck.ob("R4", "AsmBlock.split:index", ok, m.where(fn), "the split index is not the position of the instruction starting at the offset")
+    from sa.normal import state_after
+    meths_ab = dict((q.split(".", 1)[1], f) for q, f in m.funcs.items() if q.startswith("AsmBlock.") and q.count(".") == 1)
+    st8 = state_after(fn.body, methods=meths_ab)
+    head, tail = st8.get("self.lines"), st8.get("new_block.lines")
+
+    def _slice_of_lines(e):
+        if isinstance(e, ast.Subscript) and isinstance(e.slice, ast.Slice) and norm(e.value) == "self.lines" and e.slice.step is None:
+            return e.slice.lower, e.slice.upper
+        return None
+    hs, ts = _slice_of_lines(head) if head is not None else None, _slice_of_lines(tail) if tail is not None else None
+    ok = hs is not None and ts is not None and hs[0] is None and hs[1] is not None and ts[1] is None and ts[0] is not None and norm(hs[1]) == norm(ts[0])
+    ck.ob("R4", "AsmBlock.split:partition", ok, m.where(fn), "lines are not partitioned as lines[:i] / lines[i:] of the block's former lines (head = %s, tail = %s)"
+          % (norm(head)[:40] if head is not None else None, norm(tail)[:40] if tail is not None else None))
+    idx = hs[1] if ok else None
+    okx = False
+    if idx is not None and isinstance(idx, ast.Call) and isinstance(idx.func, ast.Attribute) and idx.func.attr == "index" and len(idx.args) == 1:
+        seq = idx.func.value
+        okx = isinstance(seq, ast.ListComp) and len(seq.generators) == 1 and norm(seq.generators[0].iter) == "self.lines" and not seq.generators[0].ifs \
+            and isinstance(seq.elt, ast.Attribute) and seq.elt.attr == "offset" and norm(seq.elt.value) == norm(seq.generators[0].target)
+        # the searched value is the offset the block is split at (possibly re-read from the location database)
+        okx = okx and ("offset" in norm(idx.args[0]))
+    ck.ob("R4", "AsmBlock.split:index", okx, m.where(fn), "the split index is not the position, among the block's instruction offsets, of the instruction starting at the offset")
     # else-branch: tail gets the former constraints, head gets the single c_next to the tail
     ok = any(isinstance(n, ast.Assign) and norm(n.targets[0]) == "new_block.bto" and norm(n.value) == "self.bto" for n in walk_body(fn)) and \
         any(isinstance(n, ast.Assign) and norm(n.targets[0]) == "self.bto" and norm(n.value) == "set([c])" for n in walk_body(fn)) and \
